@@ -156,7 +156,7 @@ def gen_case(run_seed: int, index: int, tier: str) -> dict:
         bps, b = 1, 1
     if b == 1 and rng.random() < 0.25 and n * 2 <= 64:
         b = rng.choice([x for x in (2, 3, 4) if (x * n) % bps == 0] or [1])
-    B = rng.choice([1, 1, 2, 3, 4])
+    B = rng.choice([1, 1, 2, 3, 4, 4, 8])
     case["mod"], case["B"], case["b"] = mod, B, b
     zero_msg = rng.random() < 0.05
     case["messages"] = [[0 if zero_msg else rng.randrange(2) for _ in range(b * k)] for _ in range(B)]
